@@ -1,0 +1,7 @@
+//go:build verif && (!amd64 || noasmtest)
+// +build verif
+// +build !amd64 noasmtest
+
+package cpu
+
+func cpuArchLevelIsStub() bool { return true }
